@@ -1,7 +1,7 @@
 (* Proofs/BankProofs.v — register banking of the translated Registers class equals the
    architectural bank table (Spec/Arch.phys_bank); reads/writes by mode; histories. *)
 From Coq Require Import ZArith List Bool Lia ZifyBool.
-From ArmV Require Import Lib.PyZ Lib.Monad Lib.Machine Spec.Pseudocode Spec.Arch
+From ArmV Require Import Lib.PyZ Lib.Monad Lib.Machine Spec.Pseudocode Spec.Arch Spec.MachineView
   Proofs.BitLemmas Proofs.SpecFacts Proofs.BitsOps Proofs.FieldsProofs Proofs.StateLemmas Proofs.CondProofs.
 From Gen Require Import enums bits_ops shift regviews records hubm opsyn core.
 Import ListNotations.
@@ -136,6 +136,17 @@ Proof.
     replace ((0 <=? n) && (n <=? 14)) with false by lia; reflexivity.
 Qed.
 
+Lemma ridx_spec_ridx n mode : 0 <= n <= 14 -> ridx n mode = spec_ridx n mode.
+Proof.
+  intros Hn. unfold ridx, spec_ridx. cbv zeta.
+  assert (Cn : n = 0 \/ n = 1 \/ n = 2 \/ n = 3 \/ n = 4 \/ n = 5 \/ n = 6 \/ n = 7 \/ n = 8 \/ n = 9 \/ n = 10 \/
+               n = 11 \/ n = 12 \/ n = 13 \/ n = 14) by lia.
+  repeat (destruct Cn as [-> | Cn]; [destruct (phys_bank _ mode); vm_compute; reflexivity|]).
+  subst n. destruct (phys_bank 14 mode); vm_compute; reflexivity.
+Qed.
+Lemma pc_index_code : RName_PC - 1 = pc_index.
+Proof. reflexivity. Qed.
+
 (* two (register, mode) pairs name the same storage exactly when the architecture says so *)
 Lemma ridx_same n m n' m' : 0 <= n <= 14 -> 0 <= n' <= 14 ->
   (ridx n m = ridx n' m' <-> n = n' /\ same_phys n m m' = true).
@@ -148,6 +159,8 @@ Proof.
 Qed.
 Lemma ridx_range n m : 0 <= n <= 14 -> 0 <= ridx n m < 33.
 Proof. intros. unfold ridx. pose proof (code_of_phys_range n (phys_bank n m) H). lia. Qed.
+Lemma spec_ridx_range n m : 0 <= n <= 14 -> 0 <= spec_ridx n m < 33.
+Proof. intros. rewrite <- ridx_spec_ridx by lia. apply ridx_range. lia. Qed.
 
 (* read after write by (register, mode) *)
 Theorem rmode_read_after_write cfg n m v n' m' s : 0 <= n <= 14 -> 0 <= n' <= 14 -> legal_mode cfg m -> legal_mode cfg m' ->
@@ -199,7 +212,6 @@ Proof.
 Qed.
 
 (* ---------- access through the current mode; PC reads ---------- *)
-Definition mode_of (s : machine) : Z := psr_M (cpsr_of s).
 
 Lemma mode_of_get s : CPSR_get_m (getl (sys s) 0) = mode_of s.
 Proof. unfold CPSR_get_m. rewrite get_slice by lia. reflexivity. Qed.
